@@ -50,6 +50,36 @@ func genC16(g *Gen) error {
 	}
 	rows = append(rows, [2]string{"storeFSM.applyCreateDatabaseCommand", fp})
 	g.PairList("fingerprints", rows)
+
+	// the functions the second model layer (OG/Meta/Model2.lean) transcribes
+	fns2 := []fn{
+		{"data.go", "Data.UpdateIndexInfoTier"}, {"data.go", "Data.UpdatePtVersion"}, {"data.go", "Data.ReSharding"}, {"data.go", "Data.createIndexGroup"},
+		{"data.go", "Data.CreateShardGroupWithBounds"}, {"data.go", "Data.ExpandGroups"}, {"retentionpolicy.go", "RetentionPolicyInfo.shardingType"},
+		{"retentionpolicy.go", "RetentionPolicyInfo.firstMeasurement"}, {"data.go", "Data.MarkTakeover"}, {"data.go", "Data.MarkBalancer"},
+		{"data.go", "Data.CreateSubscription"}, {"data.go", "Data.DropSubscription"},
+		{"continuous_query.go", "Data.CreateContinuousQueryBase"}, {"continuous_query.go", "Data.CreateContinuousQuery"},
+		{"continuous_query.go", "Data.DropContinuousQueryBase"}, {"continuous_query.go", "Data.DropContinuousQuery"},
+		{"continuous_query.go", "Data.BatchUpdateContinuousQueryStat"}, {"continuous_query.go", "ContinuousQueryInfo.UpdateContinuousQueryStat"},
+		{"data.go", "Data.SetStream"}, {"data.go", "Data.CreateStream"}, {"data.go", "Data.DropStream"}, {"stream.go", "StreamInfo.Equal"},
+		{"data.go", "Data.CheckStreamExistInDatabase"}, {"data.go", "Data.CheckStreamExistInRetention"}, {"data.go", "Data.CheckStreamExistInMst"},
+		{"apply_func_base.go", "ApplyUpdatePtVersion"}, {"apply_func_base.go", "ApplyReSharding"},
+	}
+	var rows2 [][2]string
+	for _, f := range fns2 {
+		fp, err := g.Fingerprint(metaDir+f.file, f.name)
+		if err != nil {
+			return err
+		}
+		rows2 = append(rows2, [2]string{f.name, fp})
+	}
+	for _, name := range []string{"storeFSM.applyDropDatabaseCommand", "storeFSM.applyCreateContinuousQueryCommand", "storeFSM.applyDropContinuousQueryCommand", "storeFSM.applyExpandGroupsCommand"} {
+		fp, err := g.Fingerprint("app/ts-meta/meta/store_fsm.go", name)
+		if err != nil {
+			return err
+		}
+		rows2 = append(rows2, [2]string{name, fp})
+	}
+	g.PairList("fingerprints2", rows2)
 	// the group boundary computation, verbatim (the subject of the alignment clause)
 	fd, err := g.Func(metaDir+"data.go", "Data.newShardGroup")
 	if err != nil {
